@@ -324,7 +324,7 @@ func runMux(s muxSched, watchdog time.Duration) (out muxOutcome) {
 	wait := func(wg *sync.WaitGroup) bool {
 		done := make(chan struct{})
 		go func() { wg.Wait(); close(done) }()
-		last, lastN := time.Now(), -1
+		last, lastN, ticks := time.Now(), -1, 0
 		tick := time.NewTicker(2 * time.Millisecond)
 		defer tick.Stop()
 		for {
@@ -332,10 +332,12 @@ func runMux(s muxSched, watchdog time.Duration) (out muxOutcome) {
 			case <-done:
 				return true
 			case <-tick.C:
+				// no verdict by wall-clock alone: the watchdog must itself have been scheduled `stallTicks` times
+				// (ticks are dropped when the process is starved) without seeing a new trace record
 				n := len(tr.Snapshot())
 				if n != lastN {
-					lastN, last = n, time.Now()
-				} else if time.Since(last) > watchdog {
+					lastN, last, ticks = n, time.Now(), 0
+				} else if ticks++; ticks >= stallTicks && time.Since(last) > watchdog {
 					buf := make([]byte, 1<<16)
 					buf = buf[:runtime.Stack(buf, true)]
 					out.deadlock, out.dump = true, string(buf)
